@@ -14,9 +14,10 @@
 (***************************************************************************)
 EXTENDS Naturals, FiniteSets, TLC
 
-CONSTANTS Redact, MaxSteps
+CONSTANTS Redact, MaxSteps,
+          StageInKeyDir   \* the temp file of a key being stored lies inside the key directory (TRUE in the code)
 
-Sinks == {"keyfile", "agentLog", "connLog", "event", "statusJson", "statusTag", "ruleDump", "console", "clientResponse",
+Sinks == {"tempDir", "keyfile", "agentLog", "connLog", "event", "statusJson", "statusTag", "ruleDump", "console", "clientResponse",
           "hostRequest"}
 VARIABLES dirMode,     \* "none" | "default" | "0700"   the key directory
           onDisk,      \* key file present (kind of key stored) : "none" | "ok" | "nonhex"
@@ -49,6 +50,10 @@ AcquireNon200 ==      \* a status other than 200 whose body is a key document: a
              /\ Step /\ dirMode = "0700"
              /\ statusMsg' = IF Redact THEN statusMsg ELSE TRUE
              /\ UNCHANGED <<dirMode, onDisk, mem, out>>
+\* the process dies between writing the temp file of a key and renaming it: the temp file stays where it was staged
+CrashDuringStore == /\ Step /\ dirMode = "0700"
+                    /\ out' = out \cup {IF StageInKeyDir THEN "keyfile" ELSE "tempDir"}
+                    /\ UNCHANGED <<dirMode, onDisk, mem, statusMsg>>
 FetchLocal == /\ Step /\ onDisk # "none" /\ mem' = onDisk /\ UNCHANGED <<dirMode, onDisk, statusMsg, out>>
 ClearKey == /\ Step /\ mem' = "none" /\ UNCHANGED <<dirMode, onDisk, statusMsg, out>>
 
@@ -69,7 +74,7 @@ UndeliveredReply == /\ Step /\ mem # "none"
                     /\ out' = IF Redact THEN out ELSE out \cup {"agentLog", "console"}
                     /\ UNCHANGED <<dirMode, onDisk, mem, statusMsg>>
 
-Next == UndeliveredReply \/ MkKeyDir \/ AclKeyDir \/ AcquireOk \/ AcquireNonHex \/ AcquireMalformed \/ AcquireNon200 \/ FetchLocal \/ ClearKey
+Next == UndeliveredReply \/ MkKeyDir \/ AclKeyDir \/ AcquireOk \/ AcquireNonHex \/ AcquireMalformed \/ AcquireNon200 \/ CrashDuringStore \/ FetchLocal \/ ClearKey
         \/ PublishStatus \/ ProvisionQuery \/ ProxySign
 Spec == Init /\ [][Next]_vars
 
